@@ -29,7 +29,8 @@ TRUSTED = ['A1 float == real; A2 object arrays == float arrays',
            'z3 / cvc5 as deciders of polynomial identities (denominators cleared, node differences != 0)']
 ASSUMPTIONS = ['nodes pairwise distinct (property precondition); any order, any spacing, any x0']
 NOT_DECIDED = ['rounding scaled by the conditioning of the node set']
-BOUNDED = ['integer-nodes: integer-typed node lists / arrays with fractional x0 compared with float nodes on concrete cases (executed with the real numpy, not proved)',
+BOUNDED = ['exact-weights: fd_weights_all / fd_weights on floats against exact rational Lagrange weights for 120 (node set, x0, n) cases: up to 14 nodes and order 13, node sets at scale 2**-30 and 2**20, nearly equidistant nodes -- executed, not proved',
+           'integer-nodes: integer-typed node lists / arrays with fractional x0 compared with float nodes on concrete cases (executed with the real numpy, not proved)',
            'the loop index i must be concrete for numpy (np.arange): the step is checked for every i <= m-1 with m up to 14 '
            '(the property\'s range); the state is havoc\'d, so each step is independent of how many iterations precede']
 QUANTIFIED = 'all nodes x_v, x0, and all old weights W[v,k] of the invariant: universally quantified reals'
@@ -56,6 +57,7 @@ def groups(tier):
     out.append(('base+exit', ('base',)))
     out.append(('wrappers', ('wrappers',)))
     out.append(('direct', ('direct',)))
+    out.append(('exact-weights', ('exactw',)))
     out.append(('integer-nodes', ('intnodes',)))
     return out
 
@@ -272,7 +274,16 @@ def run_intnodes():
     return {}
 
 
+def run_exactw():
+    from ndvc.concrete import fd_weights_exact_cases
+    cnt, bad = fd_weights_exact_cases(mods()['fb'])
+    solve.fact('fd_weights_all-and-fd_weights==exact-rational-Lagrange-weights(up-to-14-nodes,order-13,scales-2**-30..2**20,nearly-equidistant)[%d cases]' % cnt,
+               not bad, kind='bounded', note=str(bad[:1])[:400])
+    return {}
+
 def run_group(args):
+    if args[0] == 'exactw':
+        return run_exactw()
     if args[0] == 'intnodes':
         return run_intnodes()
     if args[0] == 'step':
@@ -281,6 +292,8 @@ def run_group(args):
 
 
 def replay_case(ob):
+    if ob['name'].startswith('exact-weights/'):
+        return dict(kind='C15.exactw')
     if ob['name'].startswith('integer-nodes/'):
         return dict(kind='C15.intnodes')
     if 'held-table' in ob['name']:
